@@ -157,7 +157,9 @@ def _direct_effect(F, c, ltraits):
     if n.startswith("cln_plugin::Builder::") or n.startswith("cln_plugin::ConfiguredPlugin::") or n.startswith("cln_plugin::Plugin::"):
         return True
     if n in ("std::ops::Fn::call", "std::ops::FnMut::call_mut", "std::ops::FnOnce::call_once") or c.indirect:
-        return True
+        # a callback of unknown code (a registered handler, a boxed/generic Fn); calling a closure written in this crate
+        # is whatever that closure does (its body is part of the same fn group and is scanned with it)
+        return "{closure@" not in (c.full or "")
     return False
 
 
